@@ -61,7 +61,15 @@ def _msg_to_controller(r, xid):
   k = r.wpick([(3, "echo_req"), (2, "echo_rep"), (2, "vendor"),
                (5, "packet_in"), (2, "flow_removed"), (3, "port_status"),
                (4, "stats"), (2, "barrier"), (1, "get_config"), (2, "error"),
-               (1, "queue_cfg"), (1, "big_packet_in"), (1, "big_stats")])
+               (1, "queue_cfg"), (1, "big_packet_in"), (1, "big_stats"),
+               (1, "hello_v4")])
+  if k == "hello_v4":
+    # what an OpenFlow 1.3 switch says first: version 4, with or without a
+    # version bitmap; the controller lets a foreign-version hello through
+    body = struct.pack("!HHL", 1, 8, 0x12) if r.chance(0.6) else b""
+    m = bytearray(W.enc_hello(xid, body))
+    m[0] = r.pick([4, 4, 2, 5])
+    return bytes(m)
   if k == "echo_req":
     return W.enc_echo_request(xid, r.randbytes(r.pick([0, 1, 8, 100])))
   if k == "echo_rep":
